@@ -163,8 +163,12 @@ def run_case(case: Dict[str, Any]) -> Dict[str, Any]:
         client = rig.add_client(case.get('transport', 'unix'), rcvbuf=case.get('rcvbuf'), sndbuf=case.get('sndbuf'))
         hp = origin.hostport
         nreq = 1
+        early = b''
         if role == 'tunnel':
-            client.send(b'CONNECT %s HTTP/1.1\r\nHost: %s\r\n\r\n' % (hp, hp))
+            if case.get('early_payload'):
+                # a client that does not wait for the 200: its first tunnel bytes ride in the same segment as the CONNECT head
+                early = G.coded(b'e', case['early_payload'])
+            client.send(b'CONNECT %s HTTP/1.1\r\nHost: %s\r\n\r\n' % (hp, hp) + early)
         else:
             client.send(b'GET http://%s/r0 HTTP/1.1\r\nHost: %s\r\n\r\n' % (hp, hp))
             if fr == 'seq':
@@ -194,7 +198,9 @@ def run_case(case: Dict[str, Any]) -> Dict[str, Any]:
             o_pieces = G.cut_at(up, G.random_cuts(rng, len(up), case['ncuts']))
             c_pieces = G.cut_at(down, G.random_cuts(rng, len(down), case['ncuts']))
             expected_c = up
-            expected_o = down
+            expected_o = early + down
+            if early:
+                obs['early_tunnel_payloads'] = 1
             segs = len(o_pieces) + len(c_pieces)
         else:
             expected_c_prefix = b''
@@ -228,7 +234,7 @@ def run_case(case: Dict[str, Any]) -> Dict[str, Any]:
                 viol.append({'key': 'tunnel|ack-malformed', 'detail': {'got': bytes(client.rx[:200])}})
             prefix_len = len(client.rx)
             expected_full_c = bytes(client.rx) + expected_c      # ack judged separately above
-            base_o = len(oc.rx)
+            base_o = 0          # nothing of the CONNECT itself is forwarded: every byte the origin gets is tunnel payload
             req_seen = b''
         else:
             prefix_len = 0
@@ -409,7 +415,8 @@ def cases(tier: str, seed: int):
                'profile': rng.choice(['eager', 'slow', 'slow', 'stall']),
                'transport': rng.choice(['unix', 'unix', 'tcp']), 'rcvbuf': rng.choice([None, None, 4096]),
                'sndbuf': rng.choice([None, None, 4096]),
-               'mode': rng.choice(modes), 'ending': rng.choice(['none', 'origin-rst', 'origin-fin', 'client-rst', 'client-fin'])}
+               'mode': rng.choice(modes), 'ending': rng.choice(['none', 'origin-rst', 'origin-fin', 'client-rst', 'client-fin']),
+               'early_payload': rng.choice([0, 0, 1, 300, 5000]) if role == 'tunnel' else 0}
     for k in range(3 if tier == 'quick' else 40):
         i += 1
         yield {'seed': seed, 'i': i, 'role': 'echo', 'fr': 'raw', 'flags': 'default', 'size': rng.choice([12, 24]) << 20, 'mode': rng.choice(modes),
@@ -427,7 +434,7 @@ def cases(tier: str, seed: int):
 def floors(tier: str) -> Dict[str, int]:
     fl = {'nontrivial_cases': 100, 'distinct:schedules': 300, 'distinct:handler_states': 3,
           'shim:send:short-injected': 100, 'shim:send:eagain-injected': 50, 'shim:send:short-real': 20, 'mode:remote': 50, 'role:tunnel': 50,
-          'echo_runs': 2, 'ending:origin-rst': 40, 'ending:origin-fin': 40, 'ending:client-rst': 40, 'ending:client-fin': 40}
+          'echo_runs': 2, 'early_tunnel_payloads': 100, 'ending:origin-rst': 40, 'ending:origin-fin': 40, 'ending:client-rst': 40, 'ending:client-fin': 40}
     for f in FRAMINGS:
         fl['fr:' + f] = 10
     return fl
